@@ -126,6 +126,7 @@ int MPI_Allreduce(const void *sb, void *rb, int count, MPI_Datatype dt, MPI_Op o
         }
         if (dt == MPI_INT) ((int *)rb)[i] = (int)r; else ((long long *)rb)[i] = r;
         if (i == 0) { e->val = r; e->own = own; }
+        if (i < 4) e->vals[i] = r;
     }
     return MPI_SUCCESS;
 }
